@@ -17,7 +17,7 @@ Agrees(e) == LET r == Expected(e) IN
 
 TraceInit == l = 1
 TraceNext == /\ l <= Len(Rec) /\ l' = l + 1
-             /\ (Agrees(ev) \/ PrintT("PARSEBAD " \o ToJson([i |-> l, panic |-> ev.panic, impl_ok |-> ev.ok, spec_ok |-> Expected(ev).ok,
+             /\ (IF Agrees(ev) THEN TRUE ELSE PrintT("PARSEBAD " \o ToJson([i |-> l, panic |-> ev.panic, impl_ok |-> ev.ok, spec_ok |-> Expected(ev).ok,
                                                                spec_ast |-> Expected(ev).ast])))
 TraceSpec == TraceInit /\ [][TraceNext]_l
 TraceAccepted == TLCGet("stats").diameter - 1 = Len(Rec)
